@@ -204,12 +204,21 @@ def guarded_by(P: Program, clsname: str, fields: tuple[str, ...], lock: str, ent
         paths = Enumerator(cfg).run(fi, selfcls=clsname)
         npaths += len(paths)
         seen: dict[tuple, bool] = {}
+        cont_alias: dict[tuple, str] = {}  # (function, local) -> field: `x = self._f`, the container itself under another name
         for e, held, p in walk_with_locks(paths, c):
             if e.kind in ("inline", "inline_end", "final_iter", "caught", "raised", "acquire", "release"):
                 continue
             raw = e.raw or ""
             if e.kind == "loop":
                 raw = e.raw
+            # taking a reference to the container is not an access to its contents; what is done through that name is
+            ma = re.fullmatch(r"\s*(\w+)\s*(?::[^=]+)?=\s*self\.(\w+)\s*", raw)
+            if e.kind == "assign" and ma and ma.group(2) in fields:
+                cont_alias[(e.fn, ma.group(1))] = ma.group(2)
+                continue
+            for (fn_, loc_), fld_ in cont_alias.items():
+                if fn_ == e.fn and re.search(rf"(?<![\w.]){re.escape(loc_)}\s*(\[|\.)", raw):
+                    raw = raw + f"  # self.{fld_}"
             for f in set(fields_in(raw, fields)):
                 key = (e.fn, f, " ".join(raw.split())[:140], getattr(e.node, "lineno", 0))
                 ok = held.get(c(lock), 0) > 0
